@@ -18,7 +18,12 @@ class MessageHead(packet.Packet):
         formats.remove_padding(self)
 
         if not self.payload:
-            raise formats.VerifyError('Message without payload')
+            # A message type without any fields is complete with only its header
+            paycls = self.guess_payload_class(b'')
+            if issubclass(paycls, formats.NoPayloadPacket) and not paycls.fields_desc:
+                self.add_payload(paycls())
+            else:
+                raise formats.VerifyError('Message without payload')
         if isinstance(self.payload, packet.Raw):
             raise formats.VerifyError('Message with improper payload')
 
